@@ -10,6 +10,8 @@ mod sigs;
 mod genpaths;
 mod bls;
 mod treehash;
+mod merkle;
+mod keys;
 mod gen_types;
 mod streamable;
 
@@ -45,6 +47,8 @@ fn main() {
         "C06" => cond::run_c06(&mut o, seed, thorough, replay),
         "C13" => streamable::run_c13(&mut o, dir, seed, thorough, replay),
         "C14" => streamable::run_c14(&mut o, dir, seed, thorough, replay),
+        "C12" => merkle::run(&mut o, seed, thorough, replay),
+        "C16" => keys::run(&mut o, seed, thorough, replay),
         "C17" => treehash::run(&mut o, seed, thorough, replay),
         "C15" => bls::run(&mut o, seed, thorough, replay),
         "C07" => genpaths::run_c07(&mut o, seed, thorough, replay),
